@@ -107,7 +107,9 @@ def expected_edit(orig: bytes) -> bytes:
 # -- independent include resolution (reference for "visited exactly once")
 
 def _seg_re(seg: str) -> str:
-    return ''.join('[^/]*' if ch == '*' else '[^/]' if ch == '?' else re.escape(ch) for ch in seg)
+    body = ''.join('[^/]*' if ch == '*' else '[^/]' if ch == '?' else re.escape(ch) for ch in seg)
+    # shell rule (glob.glob): a wildcard never matches a name that starts with a dot
+    return ('(?![.])' if seg[:1] in ('*', '?') else '') + body
 
 
 def _glob_match(pattern: str, names: list) -> list:
@@ -116,7 +118,7 @@ def _glob_match(pattern: str, names: list) -> list:
     for i, s in enumerate(segs):
         last = i == len(segs) - 1
         if s == '**' and not last:
-            rx += '(?:[^/]+/)*'
+            rx += '(?:(?![.])[^/]+/)*'
         else:
             rx += _seg_re(s) + ('' if last else '/')
     return [n for n in names if re.fullmatch(rx, n)]
@@ -785,6 +787,9 @@ def bodies(files: list, api: str, level: str) -> list:
 VARIANTS: list = [
     # globs
     ('glob-star', [['main.bean', ['*.bean']], ['a.bean', []], ['b.bean', ['a.bean']]]),
+    # hidden files and directories are not matched by wildcards (and so not visited, not rewritten)
+    ('glob-hidden', [['main.bean', ['*.bean', 'sub/**/*.bean']], ['a.bean', []], ['.hidden.bean', []], ['sub/c.bean', []],
+                     ['sub/.trash/old.bean', []]]),
     ('glob-starstar', [['main.bean', ['sub/**/*.bean']], ['a.bean', []], ['sub/c.bean', []],
                        ['sub/deep/d.bean', ['../c.bean']]]),
     ('glob+explicit', [['main.bean', ['a.bean', '*.bean']], ['a.bean', ['./a.bean']]]),
